@@ -3,7 +3,7 @@
    (ModuleSpec.v) is the specification of the module API; real pyqasm is compared with it on call
    histories by harness/modcheck.py on every run. *)
 From Coq Require Import ZArith List Bool String.
-From Verif Require Import BGate PyVal Ast State Unroll Corr Spec Transforms TransformProofs ModuleSpec ModuleProofs FixProofs.
+From Verif Require Import BGate PyVal Ast State Unroll Corr Spec Transforms TransformProofs ModuleSpec ModuleProofs FixProofs LoopProofs BroadcastProofs GateDefProofs.
 Import ListNotations.
 Open Scope Z_scope.
 
@@ -87,3 +87,21 @@ Example C10_counts_example :
             SQubitDecl "r" (Some (ELit (VInt 4))); SGate [] "h" [] [QIdx "r" [IdxList [IExpr (ELit (VInt 3))]]]]%string in
   wf_flat env0 p = true /\ total_qubits p = 7 /\ total_clbits p = 2.
 Proof. vm_compute. repeat split; reflexivity. Qed.
+
+(* ... and the same for programs that are NOT flat: every program of the whole-program judgement (Props/C01.v: gate definitions
+   and calls, loops, whole-register operations, flat statements) is accepted by validate() and by unroll(), and in both modes
+   num_qubits / num_clbits are the total register sizes of the flat program it stands for -- which declares exactly the
+   registers the source declares.  (validate() visits the first iteration of a loop only; the counts do not depend on it.) *)
+Theorem C10_counts_of_a_program_with_loops_and_gate_definitions fuel p q evs :
+  gexpand env0 [] p = Some (q, evs) -> (ldepth p + 1 < fuel)%nat ->
+  (exists o, run_visit false true [] fuel p = Ok o /\
+             num_qubits (o_state o) = total_qubits q /\ num_clbits (o_state o) = total_clbits q) /\
+  (exists o, run_visit false false [] fuel p = Ok o /\ o_stmts o = q /\
+             num_qubits (o_state o) = total_qubits q /\ num_clbits (o_state o) = total_clbits q).
+Proof.
+  intros Hx Hf. split.
+  - exact (programs_of_the_judgement_are_accepted_by_validate fuel p q evs Hx Hf).
+  - destruct (programs_with_gate_definitions_unroll_to_their_expansion fuel p q evs Hx Hf) as (o & E & Ho & _ & A & B & _).
+    exists o. repeat split; assumption.
+Qed.
+Print Assumptions C10_counts_of_a_program_with_loops_and_gate_definitions.
